@@ -422,9 +422,10 @@ def modified(obs, p, algo):
 
 
 # ---- history generation ---------------------------------------------------------------------------------------------
-PATHS = ["a.txt", "b.txt", "d/a.txt", "d/c.txt", "d/e/f.txt", "x.dat", "d/y.dat", "noext", "sp ace.txt", "ü.txt"]
+PATHS = ["a.txt", "b.txt", "d/a.txt", "d/c.txt", "d/e/f.txt", "x.dat", "d/y.dat", "noext", "sp ace.txt", "ü.txt",
+         "w.json", "d/v.tar.gz", "U.TXT"]       # extensions of other lengths and cases, a double extension
 CONTENTS = [b"hello\n", b"other", b"", b"\0bin", b"v2\n", b"v3 is longer\n", b"line1\nline2\n"]
-NEW_FILES = ["n.txt", "d/n.txt", "q/r.txt", "m.txt", "noext2", "k.dat"]
+NEW_FILES = ["n.txt", "d/n.txt", "q/r.txt", "m.txt", "noext2", "k.dat", "j.json", "t.gz"]
 NEW_DIRS = ["n/", "q/w/", "d/", "z/"]
 
 
